@@ -523,7 +523,8 @@ func c11After(rc *RunCtx, res *simrt.Result) {
 			hasClear = true
 		}
 	}
-	for e, n := range delivered {
+	for _, e := range sortedInts(delivered) {
+		n := delivered[e]
 		if n > 1 {
 			rc.Violate("C11", "duplicate-delivery", "duplicate:"+qn, fmt.Sprintf("element %d delivered %d times", e, n))
 		}
@@ -535,7 +536,7 @@ func c11After(rc *RunCtx, res *simrt.Result) {
 		}
 	}
 	if !hasClear && !d.Double {
-		for e := range accepted {
+		for _, e := range sortedInts(accepted) {
 			if delivered[e]+evicted[e] == 0 {
 				rc.Violate("C11", "lost-element", "lost:"+qn, fmt.Sprintf("element %d was accepted but neither delivered, evicted nor left in the queue at the end", e))
 			}
